@@ -80,6 +80,17 @@ def planted(draw):
     return case
 
 
+@st.composite
+def graph_cases(draw):
+    """larger sparse patterns with the structure of real networks (gen_linear.graph_problem: up to 40 unknowns, several
+    connected components in random numbering, floating components = exact rank defects, zero columns, blocks up to 10)"""
+    c = draw(gen_linear.graph_problem(min_n=10, max_n=40))
+    case = {"m": c["m"], "n": c["n"], "rows": rows_from_dense(c["A"]), "b": c["b"], "blocks": c["blocks"],
+            "d": c["d"], "shape": "graph"}
+    case["x"] = draw(extras(c["m"], c["n"]))
+    return case
+
+
 SHAPES = ["dense", "banded", "single_column", "components", "empty_rows", "zero_columns", "one_per_row", "arrow",
           "random", "random", "no_columns"]
 
@@ -644,5 +655,6 @@ def sample(case):
 PARTS = [
     Part("planted", strategy=planted, oracle=oracle, nontrivial=nontrivial, n={"quick": 1200, "thorough": 30000}, sample=sample),
     Part("patterns", strategy=patterns, oracle=oracle, nontrivial=nontrivial, n={"quick": 1600, "thorough": 40000}, sample=sample),
+    Part("graphs", strategy=graph_cases, oracle=oracle, nontrivial=nontrivial, n={"quick": 400, "thorough": 6000}, sample=sample),
     Part("blocks", strategy=block_cases, oracle=oracle, nontrivial=nontrivial, n={"quick": 600, "thorough": 10000}, sample=sample),
 ]
